@@ -412,9 +412,10 @@ class Forced:
     When the current thread ends or blocks, the lowest enabled tid continues (or `fallback`
     order).  Records, for every point, which other threads could have been chosen."""
 
-    def __init__(self, switches=None, start=None):
+    def __init__(self, switches=None, start=None, kinds=None):
         self.switches = dict(switches or {})
         self.start = start
+        self.kinds = kinds         # None, or the kinds of points at which alternatives are explored
         self.alternatives = []     # (point no, [other enabled tids])
 
     def choose(self, sched, kind, info, enabled, me):
@@ -424,7 +425,7 @@ class Forced:
             return enabled[0]
         n = sched.points - 1
         others = [t for t in enabled if t != me]
-        if others:
+        if others and (self.kinds is None or kind in self.kinds):
             self.alternatives.append((n, others))
         want = self.switches.get(n)
         if want is not None and want in enabled:
@@ -450,7 +451,7 @@ class RandomSwitch:
         return me
 
 
-def explore(run_once, bound, budget):
+def explore(run_once, bound, budget, kinds=None):
     """Preemption-bounded enumeration.  `run_once(chooser)` executes the program and returns an
     arbitrary result; yields (switches, start, result) for every schedule with at most `bound`
     forced switches (until `budget` runs were made)."""
@@ -463,7 +464,7 @@ def explore(run_once, bound, budget):
         if key in seen:
             continue
         seen.add(key)
-        ch = Forced(dict(switches), start)
+        ch = Forced(dict(switches), start, kinds)
         res = run_once(ch)
         runs += 1
         yield switches, start, res
